@@ -191,8 +191,14 @@ func (r *FeatureLocal) addPendingApproval(msg *api.Message) {
 
 	newTimer := time.AfterFunc(r.writeTimeout, func() {
 		r.muxResponseCB.Lock()
+		_, pending := r.pendingWriteApprovals[ski][*msg.RequestHeader.MsgCounter]
 		delete(r.pendingWriteApprovals[ski], *msg.RequestHeader.MsgCounter)
 		r.muxResponseCB.Unlock()
+
+		// a verdict got in first and has already given the write its outcome
+		if !pending {
+			return
+		}
 
 		err := model.NewErrorTypeFromString("write not approved in time by application")
 		_ = msg.FeatureRemote.Device().Sender().ResultError(msg.RequestHeader, r.Address(), err)
@@ -249,6 +255,10 @@ func (r *FeatureLocal) ApproveOrDenyWrite(msg *api.Message, err model.ErrorType)
 
 	r.muxResponseCB.Lock()
 	defer r.muxResponseCB.Unlock()
+	// the approval timeout fired meanwhile and has already answered the write
+	if _, pending := r.pendingWriteApprovals[ski][*msg.RequestHeader.MsgCounter]; !pending {
+		return
+	}
 	delete(r.pendingWriteApprovals[ski], *msg.RequestHeader.MsgCounter)
 
 	if err.ErrorNumber == 0 {
